@@ -61,7 +61,8 @@ def main():
     finally:
         sh("git", "-C", "/repo", "worktree", "remove", "--force", WT)
         shutil.rmtree("/tmp/eql_selfmut_evidence", ignore_errors=True)
-    missed = [(i, l) for i, s, l in results if s == "ran" and not any(v == "caught" for k, v in l.items() if k != "tests")]
+    equiv = {m["id"] for m in muts if m.get("equivalent")}
+    missed = [(i, l) for i, s, l in results if s == "ran" and i not in equiv and not any(v == "caught" for k, v in l.items() if k != "tests")]
     print(f"\n{len(results)} mutants, {len(missed)} not caught by any listed check: {[i for i, _ in missed]}")
     return 1 if missed else 0
 
